@@ -62,7 +62,16 @@ def main():
         }],
         "checks": checks,
         "not_applicable": na,
-        "notes": "See DESIGN.md. Exit codes: 0 held, 1 VIOLATION, 2 infrastructure failure.",
+        "notes": ("See DESIGN.md (§0 'As built' first). Exit codes: 0 held, 1 VIOLATION (a line 'VIOLATION property=<id> replay=<path>'; "
+                  "when only a proof obligation or the model/code correspondence broke and the search found no failing input the line ends with "
+                  "'no-failing-input-found' and the replay names the theorems / correspondence that no longer check), 2 infrastructure failure. "
+                  "Every check: (A) regenerate the T1 tables from /repo's working tree, lake build of the property's theorems + driver, forbidden-token "
+                  "grep, #print axioms audit (subset of propext, Classical.choice, Quot.sound), leanchecker in the thorough tier; (B) tie of the Lean "
+                  "model to the real code (differential runs / verified checkers on real output); (C) the property's own observable on the real code. "
+                  "Open genuine defects are listed in known_findings.jsonl (status open -> 'KNOWN-FINDING:' lines, exit 0); repaired ones are "
+                  "'fixed' with the /repo commit and suppress nothing. Environment: RPFT_REPO (tree under verification, default /repo), VERIF_SEED, "
+                  "VERIF_EVIDENCE_DIR / VERIF_REPLAY_DIR (where evidence and replays go; default evidence/ and replays/). "
+                  "seeded/<id>/ holds the confirmed breaking changes written by independent sub-agents (patch.diff, demo.py, meta.json with the detecting check)."),
     }
     json.dump(m, open("MANIFEST.json", "w"), indent=1)
     print(len(checks), "claimed;", len(na), "not claimed")
